@@ -29,12 +29,6 @@ theorem casLoop_c0 {e : Ev} {c : Hp.St} {pc : Pc} {b : Bool} {cell : Nat} {a : I
       · rw [guard_ok] at h; obtain ⟨_, h⟩ := h; cases h; exact .inr rfl
       · rw [guard_ok] at h; obtain ⟨_, h⟩ := h; cases h; exact .inl ⟨rfl, rfl, rfl⟩
 
-/-- skipping a no-op `addHot` does not change the cut a collector carries -/
-theorem cutOfPc_skipPc (k : Nat) (e : Ev) (pc : Pc) : cutOfPc (skipPc k e pc) = cutOfPc pc := by
-  rcases skipTask_cases k (parseLoc e.loc) pc.task with hs | ⟨cold, ov, cell, todo, taken, S, ht, hs, _⟩
-  · rw [skipPc_of_task_eq hs]
-  · simp only [cutOfPc, skipPc, hs]; simp [ht, cutOf]
-
 /-- what the check of one event does to the ghost data (`c0` is kept) -/
 theorem evStep1_ghost {k : Nat} {c : Hp.St} {cuts : Cuts} {e : Ev} {pc : Pc} {c' : Hp.St} {pc' : Pc}
     {rv : Option String} {cuts' : Cuts}
@@ -100,63 +94,31 @@ theorem evStep1_ghost {k : Nat} {c : Hp.St} {cuts : Cuts} {e : Ev} {pc : Pc} {c'
       · cases hr
         exact ⟨rfl, .inr (.inl ⟨by simp [cutOfPc, ht, cutOf], by simp [cutOfPc, cutOf], hc, rfl⟩)⟩
   · next cold ov S ht =>
-    rw [plainR_ok, guard_ok] at h
-    obtain ⟨⟨_, h⟩, hc⟩ := h
     split at h
-    · rw [guard_ok] at h
-      obtain ⟨_, h⟩ := h; cases h
-      exact ⟨rfl, .inl ⟨by simp [cutOfPc, ht, cutOf], hc, rfl⟩⟩
-    · rw [guard_ok] at h
-      obtain ⟨_, h⟩ := h; cases h
+    · rw [plainR_ok, guard_ok] at h
+      obtain ⟨⟨_, h⟩, hc⟩ := h; cases h
       exact ⟨rfl, .inl ⟨rfl, hc, rfl⟩⟩
-  · next cold ov cell todo taken S ht =>
-    split at h
     · rw [plainR_ok, guard_ok] at h
-      obtain ⟨⟨_, h⟩, hc⟩ := h; cases h
-      exact ⟨rfl, .inl ⟨by simp [cutOfPc, ht, cutOf], hc, rfl⟩⟩
-    · rw [plainR_ok, guard_ok] at h
-      obtain ⟨⟨_, h⟩, hc⟩ := h; cases h
-      exact ⟨rfl, .inl ⟨by simp [cutOfPc, ht, cutOf], hc, rfl⟩⟩
-  · next cold ov cell todo taken S ht =>
-    split at h
-    · rw [plainR_ok] at h
-      obtain ⟨h, hc⟩ := h
-      rcases fetchAdd_cases h with ⟨⟨ic, f, hr⟩, hfl, hfk⟩ | ⟨hr, hfok, hfl, hfo, hfr, hfk⟩
-      · cases hr; exact ⟨rfl, .inl ⟨rfl, hc, rfl⟩⟩
-      · cases hr
+      obtain ⟨⟨_, h⟩, hc⟩ := h
+      split at h
+      · rw [guard_ok] at h
+        obtain ⟨_, h⟩ := h; cases h
         exact ⟨rfl, .inl ⟨by simp [cutOfPc, ht, cutOf], hc, rfl⟩⟩
-    · rw [plainR_ok] at h
-      obtain ⟨h, hc⟩ := h
-      rcases casLoop_c0 h with ⟨h1, h2, h3⟩ | h1
-      · simp only at h1 h2 h3; subst h2
-        exact ⟨h1, .inl ⟨by simp [cutOfPc, h3], hc, rfl⟩⟩
-      · cases h1
-        exact ⟨rfl, .inl ⟨by simp [cutOfPc, ht, cutOf], hc, rfl⟩⟩
+      · rw [guard_ok] at h
+        obtain ⟨_, h⟩ := h; cases h
+        exact ⟨rfl, .inl ⟨rfl, hc, rfl⟩⟩
   · next cold ov todo taken S ht =>
-    rw [plainR_ok] at h
-    obtain ⟨h, hc⟩ := h
-    rcases fetchAdd_cases h with ⟨⟨ic, f, hr⟩, hfl, hfk⟩ | ⟨hr, hfok, hfl, hfo, hfr, hfk⟩
-    · cases hr; exact ⟨rfl, .inl ⟨rfl, hc, rfl⟩⟩
-    · cases hr
-      exact ⟨rfl, .inl ⟨by simp [cutOfPc, ht, cutOf], hc, rfl⟩⟩
-  · next cold ov todo taken S ht =>
-    split at h
-    · cases h
-    · cases h
-      exact ⟨rfl, .inr (.inr ⟨S, ov, taken, by simp [cutOfPc, ht, cutOf], rfl, rfl, rfl⟩)⟩
-  · cases h
+    obtain ⟨h0, _, ⟨⟨todo', taken', ht'⟩, hc, hs, _⟩ | ⟨_, ht', hc, hs, _⟩⟩ := colStep_cases ht h
+    · exact ⟨h0, .inl ⟨by simp [cutOfPc, ht, ht', cutOf], hc, hs⟩⟩
+    · exact ⟨h0, .inr (.inr ⟨S, ov, taken, by simp [cutOfPc, ht, cutOf], ht', hc, hs⟩)⟩
 
 
-/-- what one accepted event does to the ghost data (`c0` is kept); a skipped `addHot` of 0 has no ghost effect -/
+/-- what one accepted event does to the ghost data (`c0` is kept) -/
 theorem evStep_ghost {k : Nat} {c : Hp.St} {cuts : Cuts} {e : Ev} {pc : Pc} {c' : Hp.St} {pc' : Pc}
     {rv : Option String} {cuts' : Cuts}
     (h : evStep k c cuts e pc = .ok ((c', pc', rv), cuts')) :
     pc'.c0 = pc.c0 ∧ GhostEff k c c' pc pc' cuts cuts' := by
-  unfold evStep at h
-  have h1 := evStep1_ghost h
-  have hc : (skipPc k e pc).c0 = pc.c0 := rfl
-  simp only [GhostEff, cutOfPc_skipPc, hc] at h1
-  exact h1
+  exact evStep1_ghost h
 
 /-- the shape of an accepted item: an event of an open call, or a call / return mark -/
 theorem item_shape {s s' : St} {it : Item} (h : item s it = .ok s') :
